@@ -66,7 +66,7 @@ func runC09(c *Ctx) {
 							}
 						}
 					}
-					if pr, ok := v.(*ssa.Parameter); ok && (pr.Name() == "currentBatch") {
+					if pr, ok := v.(*ssa.Parameter); ok && (pr.Name() == "currentBatch" || paramFedByField(p, pr, "CurrentBatch")) {
 						if cursor == "" {
 							cursor = "CurrentBatch"
 						}
@@ -138,7 +138,8 @@ func runC09(c *Ctx) {
 		{vp + "validateRolloutSpecCanarySteps", vp + "validateRolloutSpecStrategy", vp + "validateRolloutSpecCanaryTraffic", vp + "RolloutCreateUpdateHandler.validateRolloutUpdate", vp + "RolloutCreateUpdateHandler.validateRolloutConflict", "v1beta1"},
 		{vp + "validateV1alpha1RolloutSpecCanarySteps", vp + "validateV1alpha1RolloutSpecCanaryStrategy", vp + "validateV1alpha1RolloutSpecCanaryTraffic", vp + "RolloutCreateUpdateHandler.validateV1alpha1RolloutUpdate", vp + "RolloutCreateUpdateHandler.validateV1alpha1RolloutConflict", "v1alpha1"},
 	}
-	returnsErrUnder := func(fn *ssa.Function, m FactM) bool {
+	var returnsErrUnder func(fn *ssa.Function, m FactM) bool
+	returnsErrUnder0 := func(fn *ssa.Function, m FactM) bool {
 		// some return of a non-nil error list lies behind an edge matching m, and from that edge no nil return is reachable
 		for _, b := range fn.Blocks {
 			for k := range b.Succs {
@@ -156,6 +157,62 @@ func runC09(c *Ctx) {
 				if !bad {
 					return true
 				}
+			}
+		}
+		return false
+	}
+	// the check may live in a same-package helper whose error list the validator hands on:
+	// the helper rejects under m, and a non-nil result of the helper makes the validator return non-nil
+	returnsErrUnder = func(fn *ssa.Function, m FactM) bool {
+		if returnsErrUnder0(fn, m) {
+			return true
+		}
+		for _, ci := range AllCalls(fn) {
+			g := ci.Common().StaticCallee()
+			if g == nil || g.Blocks == nil || g.Pkg != fn.Pkg || g == fn || g.Signature.Results().Len() != 1 {
+				continue
+			}
+			if fn.Signature.Results().Len() < 1 || g.Signature.Results().At(0).Type().String() != fn.Signature.Results().At(0).Type().String() {
+				continue
+			}
+			if !returnsErrUnder0(g, m) {
+				continue
+			}
+			call, isVal := ci.(*ssa.Call)
+			if !isVal {
+				continue
+			}
+			handedOn := false
+			// returned directly
+			for _, ret := range returnsOf(fn) {
+				for _, lf := range Leaves(Forwarded(ret.Results[0]), ret.Block()) {
+					if lf.V == ssa.Value(call) {
+						if r, _ := CanReach(PointAfter(call), func(in ssa.Instruction) bool { return in == ssa.Instruction(ret) }, ReachOpts{}); r {
+							handedOn = true
+						}
+					}
+				}
+			}
+			// or tested and returned when non-nil
+			for _, b := range fn.Blocks {
+				for k := range b.Succs {
+					if !EdgeFactMatches(b, k, FNotNil(MResultOf(call, -1))) {
+						continue
+					}
+					bad := false
+					for _, r := range WalkCP(Point{Block: b.Succs[k]}, nil, IsReturn, ReachOpts{}) {
+						ret := r.Instr.(*ssa.Return)
+						if kc, isC := Resolve(ret.Results[0], r.Env).(*ssa.Const); isC && kc.Value == nil {
+							bad = true
+						}
+					}
+					if !bad {
+						handedOn = true
+					}
+				}
+			}
+			if handedOn {
+				return true
 			}
 		}
 		return false
@@ -419,4 +476,25 @@ func checkStepIndexWriters(c *Ctx, rule string) {
 		return
 	}
 	checkStepStores(c, sc, rule, rule, rule, map[string]bool{"__index_only__": true})
+}
+
+// paramFedByField: at every call site of the parameter's function the argument derives from the named field.
+func paramFedByField(p *Program, par *ssa.Parameter, field string) bool {
+	fn := par.Parent()
+	idx := -1
+	for i, q := range fn.Params {
+		if q == par {
+			idx = i
+		}
+	}
+	cs := p.Callers(fn)
+	if idx < 0 || len(cs) == 0 {
+		return false
+	}
+	for _, site := range cs {
+		if site.Kind == "closure" || idx >= len(site.Args) || !SliceHas(site.Args[idx], MField(field)) {
+			return false
+		}
+	}
+	return true
 }
